@@ -102,9 +102,6 @@ func genSplit(g *genCtx) {
 	if g.part == "" || g.part == "shapes" {
 		for _, p := range plans {
 			ks := []int{1, 2, 3, 4}
-			if g.thorough() {
-				ks = append(ks, 254, 255, 256)
-			}
 			var totals []int
 			for d := -2; d <= 2; d++ {
 				totals = append(totals, p.max+d)
@@ -112,6 +109,14 @@ func genSplit(g *genCtx) {
 			for _, k := range ks {
 				for d := -2; d <= 2; d++ {
 					totals = append(totals, k*p.per+d)
+				}
+			}
+			if g.thorough() {
+				// around the 255-part limit (texts of ~34,000 units: a few, they are expensive to judge)
+				for _, k := range []int{255, 256} {
+					for d := -1; d <= 1; d++ {
+						totals = append(totals, k*p.per+d)
+					}
 				}
 			}
 			for _, total := range totals {
@@ -127,10 +132,13 @@ func genSplit(g *genCtx) {
 				// a multi-unit character at every offset -3..+3 around every part boundary
 				nb := total / p.per
 				for b := 1; b <= nb+1; b++ {
-					if big && b > 2 && b < nb-1 {
+					if big && b != 1 && b != nb {
 						continue
 					}
 					for off := -3; off <= 3; off++ {
+						if big && off != -1 && off != 0 {
+							continue
+						}
 						at := b*p.per + off
 						if at < 0 || at >= total {
 							continue
@@ -175,7 +183,7 @@ func genSplit(g *genCtx) {
 	if g.part == "" || g.part == "random" {
 		nr, maxU := 150, 1200
 		if g.thorough() {
-			nr, maxU = 6000, 40000
+			nr, maxU = 4000, 40000
 		}
 		for i := 0; i < nr; i++ {
 			p := plans[r.Intn(len(plans))]
